@@ -1456,7 +1456,8 @@ def _sweeps(tier: str) -> list[dict]:
     out = _glue(tier) + _break_sweep(_base_cfg(), EVENTS, 'fallback')
     out += _break_sweep(_base_cfg(race=True, reconnect=False), ['stop', 'requested'], 'race-mode')
     out += _race_sweep(_base_cfg(reconnect=False), ['stop'], range(0, 46), 'natural')
-    out += _race_sweep(_base_cfg(), ['requested', 'reset', 'timeout'], range(0, 46, 3), 'natural')
+    out += _race_sweep(_base_cfg(), ['timeout'], range(0, 46), 'natural')
+    out += _race_sweep(_base_cfg(), ['requested', 'reset'], range(0, 46, 3), 'natural')
     if tier != 'quick':
         small = _base_cfg(friends=[], liked=[], hated=[], favs=[], wishlist=0, reconnect=False)
         big = _base_cfg(friends=['f1', 'f2', 'f3', 'me'], liked=['rock', 'jazz'], hated=['pop', 'noise'], autojoin=False)
